@@ -134,6 +134,13 @@ func main() {
 		sc := rt.Enter(method, call.Input().Raw())
 		c := async.TimeoutContext(svcrt.OpTimeout)
 		out, st := sc.Loop(svcrt.ServerOps{
+			Request: func() ([]byte, status.Status) {
+				r2, st := ch.Request(c)
+				if !st.OK() {
+					return nil, st
+				}
+				return r2.Calls().Get(0).Input().Raw(), status.OK
+			},
 			Recv:    func() ([]byte, status.Status) { return ch.Receive(c) },
 			Send:    func(m []byte) status.Status { return ch.Send(c, m) },
 			SendEnd: func() status.Status { return ch.SendEnd(c) },
@@ -168,8 +175,8 @@ func main() {
 	bySig := map[string]int{}
 	byKind := map[string]int{}
 	for i, s := range scripts {
-		if nMis >= 12 {
-			break
+		if nMis >= 4 {
+			break // every further failing script may cost several time limits
 		}
 		p := svcrt.Payloads{Req: msg("req-"+s.Kind, i), Resp: msg("resp-"+s.Kind, i),
 			In: func(n int) []byte { return msg("in", 1000*i+n) }, Out: func(n int) []byte { return msg("out", 1000*i+n) }}
